@@ -403,7 +403,7 @@ class _polynomial(_Potential_Function_Base):
 
     :return: derivative of polynomial at `r` """
     r, coefs = self._split_args(args)
-    v = [float(i) * r**float(i-1) * c for (i,c) in enumerate(coefs)][1:]
+    v = [float(i) * r**float(i-1) * c for (i,c) in list(enumerate(coefs))[1:]]
     return sum([0]+v)
 
   def deriv2(self, *args):
@@ -414,7 +414,7 @@ class _polynomial(_Potential_Function_Base):
 
     :return: 2nd derivative of polynomial at `r` """
     r, coefs = self._split_args(args)
-    v = [i * float(i-1) * r**float(i-2) * c for (i,c) in enumerate(coefs)][2:]
+    v = [i * float(i-1) * r**float(i-2) * c for (i,c) in list(enumerate(coefs))[2:]]
     return sum([0]+v)
 
 polynomial = _polynomial()
